@@ -145,21 +145,31 @@ def rule_args(chk):
             good="start fields = getcallargs(f, *args, **kwargs) minus self, restricted to include_args", fail="; ".join(problems))
     # the whitelist used by the wrapper is the one given to log_call
     inc_name = "include_args"
+    from .. import exprs as X
     for fn_ in (lc, w):
-        for st_ in stores_to_name(fn_, inc_name):
-            vals = [v for v in assigned_values(fn_, inc_name) if v is not None]
-            truthy = any(isinstance(v, ast.IfExp) and isinstance(v.test, ast.Name) and v.test.id == inc_name for v in vals) or any(
-                isinstance(v, ast.BoolOp) for v in vals)
-            if truthy:
-                chk.bad("C18.args", "log_call:include_args-used-as-given", chk.where(fn_, getattr(st_, "lineno", fn_.lineno)),
-                        "include_args is rebound through a truthiness test (%s): an empty whitelist ('log no arguments') becomes 'no whitelist' and every argument is logged"
-                        % unparse(vals[0])[:70])
-            else:
-                vs = [unparse(v)[:50] for v in vals]
-                okconv = all(isinstance(v, ast.IfExp) and isinstance(v.test, ast.Compare) and "None" in unparse(v.test) for v in vals) and vals
-                if not okconv:
-                    raise AnalysisError("log_call rebinds include_args in a way the analyser does not model: %s" % vs)
-            break
+        fcfg = ctx.cfg(fn_)
+        asg = [n for n in fcfg.live if isinstance(n.ast, ast.Assign) and any(isinstance(t_, ast.Name) and t_.id == inc_name for t_ in n.ast.targets)]
+        for n in asg:
+            v = n.ast.value
+            kinds = set()
+            if isinstance(v, ast.BoolOp) or (isinstance(v, ast.IfExp) and isinstance(X.strip_not(v.test, "true")[0], ast.Name)):
+                kinds.add("truthy")
+            for t, lab in fcfg.guards_of(n):
+                if t.kind != "test":
+                    continue
+                e, _l = X.strip_not(t.exprs[0], lab)
+                if isinstance(e, ast.Name) and e.id == inc_name:
+                    kinds.add("truthy")
+                elif X.compare_of(e, lambda x: isinstance(x, ast.Name) and x.id == inc_name, lambda x: X.is_const(x, None)) in (ast.Is, ast.IsNot, ast.Eq, ast.NotEq):
+                    kinds.add("none-test")
+                elif inc_name in unparse(e):
+                    kinds.add("other")
+            if "truthy" in kinds:
+                chk.bad("C18.args", "log_call:include_args-used-as-given", chk.where(fn_, n.lineno),
+                        "include_args is rebound under a truthiness test (`%s`): an empty whitelist ('log no arguments') becomes 'no whitelist' and every argument is logged"
+                        % n.text()[:70])
+            elif "other" in kinds or (not kinds and not (isinstance(v, ast.Call) and isinstance(v.func, ast.Name) and v.func.id in ("tuple", "list", "frozenset", "set"))):
+                raise AnalysisError("log_call rebinds include_args in a way the analyser does not model: %s" % n.text()[:60])
     # decoration-time validation of include_args
     dcfg = ctx.cfg(lc)
     raises = [n for n in dcfg.live if n.kind == "raise_stmt" and "ValueError" in unparse(n.ast)]
